@@ -147,10 +147,11 @@ func (db *DB) ReviveObject(addr oid.Address) (res ReviveStatus, err error) {
 }
 
 func reviveCounters(metaC *bbolt.Cursor, gcStatus uint8, obj oid.ID) error {
+	// Garbage marks and tombstones never change per-type object counters,
+	// only the payload of physically stored objects is excluded from the
+	// container size, so this is the only thing to restore.
 	var (
-		typ  object.Type = -1
 		phy  bool
-		root bool
 		size uint64
 	)
 
@@ -158,14 +159,14 @@ func reviveCounters(metaC *bbolt.Cursor, gcStatus uint8, obj oid.ID) error {
 		switch string(k) {
 		case object.FilterPayloadSize:
 			size, _ = strconv.ParseUint(string(v), 10, 64)
-		case object.FilterType:
-			typ.DecodeString(string(v))
 		case object.FilterPhysical:
 			phy = string(v) == binPropMarker
-		case object.FilterRoot:
-			root = string(v) == binPropMarker
 		default:
 		}
+	}
+
+	if !phy {
+		return nil
 	}
 
 	switch gcStatus {
@@ -173,38 +174,6 @@ func reviveCounters(metaC *bbolt.Cursor, gcStatus uint8, obj oid.ID) error {
 		err := updateCounter(metaC.Bucket(), payloadCounter, int64(size))
 		if err != nil {
 			return fmt.Errorf("update payload counter: %w", err)
-		}
-	default:
-	}
-
-	switch typ {
-	case object.TypeRegular:
-		if phy {
-			err := updateCounter(metaC.Bucket(), phyCounter, 1)
-			if err != nil {
-				return fmt.Errorf("revive PHY counter : %w", err)
-			}
-		}
-		if root {
-			err := updateCounter(metaC.Bucket(), rootCounter, 1)
-			if err != nil {
-				return fmt.Errorf("revive ROOT counter : %w", err)
-			}
-		}
-	case object.TypeTombstone:
-		err := updateCounter(metaC.Bucket(), tsCounter, 1)
-		if err != nil {
-			return fmt.Errorf("revive TS counter : %w", err)
-		}
-	case object.TypeLock:
-		err := updateCounter(metaC.Bucket(), lockCounter, 1)
-		if err != nil {
-			return fmt.Errorf("revive LOCK counter : %w", err)
-		}
-	case object.TypeLink:
-		err := updateCounter(metaC.Bucket(), linkCounter, 1)
-		if err != nil {
-			return fmt.Errorf("revive LINK counter : %w", err)
 		}
 	default:
 	}
